@@ -227,3 +227,36 @@ SPECS["C10"] = {
                       "calls; fresh-object-per-call reference model + clean-room reference"),
     },
 }
+
+SPECS["C12"] = {
+    "parts": [{"engine": "htmsim", "mode": "", "quick": 5000, "thorough": 300000}],
+    "cap_quick": 150, "cap_thorough": 3000,
+    "rule": ("one run = 1-3 long-lived Matcher objects (depth 1-13, point sets: uniform, caps of 1e-4..30 deg, around both "
+             "poles, straddling ra=0/360, duplicates, self-match), each serving 2-6 match calls (scalar or per-point radius "
+             "from 0 and 1e-6 to 180 deg, maxmatch in {-1,0,1,2,k,>group}) in memory or to a pair file that is read back, "
+             "interleaved by a seeded schedule; perturbations: stale longer pair file at the output path, calls rejected for "
+             "mismatched sizes or an unwritable path, reuse after rejection; cross checks against the one-shot HTM.match, "
+             "another depth, and the same question asked twice. Non-trivial = at least one perturbation fired"),
+    "state_measure": ("state = per matcher (depth class, #calls capped at 3, last outcome); transition = (state, call, "
+                      "maxmatch class, radius class, sink and whether the output path was occupied)"),
+    "real": ["esutil.htm (Python, _htmc C++ and the HTM library)", "esutil.recfile via read_pairs", "glibc stdio",
+             "kernel file system"],
+    "stub": [],
+    "expect_reach": ["matcher_reused", "match_after_rejected_call", "stale_pair_file_at_output_path",
+                     "interleaved_matchers", "rejected_call_size_mismatch", "rejected_call_unwritable",
+                     "oneshot_compared", "second_depth_compared"],
+    "assumptions": ["brute-force separations: atan2(|a x b|, a.b) in extended precision", "pairs within 1e-9 deg of the "
+                    "radius are not constrained (as the property states)",
+                    "depth and radius are drawn jointly so that one circle covers at most ~2e4 leaf triangles (cost bound); "
+                    "<=120 x 60 points; cylmatch and mutation of the caller's arrays after building a matcher are not covered"],
+    "manifest": {
+        "design_ref": "3.3",
+        "level_text": ("seeded search over point configurations x radii x depths x call histories on reusable matcher objects and "
+                       "pair files; every call is compared with brute-force enumeration (none missing, none extra, each once, "
+                       "grouping, order, separations, maxmatch), file == memory, matcher == one-shot, depth independence. "
+                       "Sampling, not proof."),
+        "level_note": ("trusts the extended-precision brute force; cost bound couples depth and radius; working file system"),
+        "technique": ("deterministic simulation: seeded interleaving of calls on long-lived matcher objects with injected "
+                      "rejected calls and stale output files; brute-force reference per call"),
+    },
+}
